@@ -22,7 +22,8 @@ from pyabv.impl import impl
 RULE = (
     "cases = (run, thread, operation) results produced in worker threads: W1 concurrent constructions from a pool of "
     "sources with block comments (lexer class swap), multi-line comments and long else-if chains, compared by probe "
-    "panel, parse_source AST equality and generated-text equality; W2 concurrent calls on shared evaluators; W3 one "
+    "panel, parse_source AST equality and generated-text equality; W5 every thread builds its own revisions of one "
+    "experiment name (unique labels per construction); W2 concurrent calls on shared evaluators; W3 one "
     "evaluator toggled between texts A and B by a recompiler while callers evaluate (result must be A(x) or B(x)); W4 "
     "failing recompiles racing with calls (callers keep seeing A). distinct_nontrivial = distinct (run, thread, op) "
     "results produced by worker threads that were released together by a barrier and ran concurrently (evidence of real "
@@ -58,6 +59,15 @@ SOURCES = [
 PANEL = [dict(uid=u, sid=s, plan=p, n=n, f0=n % 3, f1=1, f2=2, f3=3, f4=n)
          for u, s, p, n in [("u1", "s", "pro", 1), (2, "t", "a", 3), ("u3", "s", "c", 40), ("é", 4, "free", 2), (5.5, None, "b", 7),
                             ("u6", "s6", "pro", 11), ("g1912706679", "x", "zz", 0), ("u8", "s8", "a", 60)]]
+SUFFIX = "abc"
+
+
+def w5_text(tag):
+    return (f'def checkout {{ /* rev {tag} */ salt: "w5" splitters: uid return "{tag}a" weighted 1, "{tag}b" weighted 2, '
+            f'"{tag}c" weighted 1 }}')
+
+
+W5_REF = w5_text("ref")
 TEXT_A = 'def ab { splitters: uid return "a1" weighted 1, "a2" weighted 1 }'
 TEXT_B = 'def ab { /* b */ splitters: uid if plan == "a" { return "b1" weighted 1 } else { return "b2" weighted 1, "b3" weighted 2 } }'
 TEXT_BAD = ['def ab { splitters: uid return "a1" weighted 1; }', 'def ab { splitters: uid return "a1" weighted }', "def ab { /* open",
@@ -160,7 +170,7 @@ class ParseOverlap:
 
 def sequential_reference(im):
     ref = {}
-    for text in SOURCES + [TEXT_A, TEXT_B]:
+    for text in SOURCES + [TEXT_A, TEXT_B, W5_REF]:
         c = im.construct(text)
         if c[0] != "ok":
             return None, (text, c)
@@ -188,13 +198,13 @@ def run(ctx):
     old_interval = sys.getswitchinterval()
     sys.setswitchinterval(1e-6)
     inter = Interleaver()
-    nruns = ctx.n(16, 14 * 40)
+    nruns = ctx.n(20, 14 * 40)
     total_overlap = total_calls = 0
     try:
         for run_i in range(nruns):
             nthreads = rnd.choice([2, 4, 8, 16])
             inject = run_i % 2 == 1
-            workload = ["W1", "W2", "W3", "W4"][run_i % 4] if run_i % 8 < 4 else rnd.choice(["W1", "W1", "W2", "W3", "W3", "W4"])
+            workload = ["W1", "W5", "W2", "W3", "W4"][run_i % 5] if run_i % 10 < 5 else rnd.choice(["W1", "W1", "W5", "W5", "W2", "W3", "W3", "W4"])
             ops = (8 if inject else 30) if ctx.quick() else (12 if inject else 60)
             logs = [[] for _ in range(nthreads)]
             errors = [[] for _ in range(nthreads)]
@@ -224,6 +234,27 @@ def run(ctx):
                                     else:
                                         gen = im.raw_codegen(text, False)
                                         logs[ti].append((k, "codegen", text, gen == ref[text]["gen"], None))
+                                except Exception as e:  # noqa: BLE001
+                                    errors[ti].append((k, text, type(e).__name__, str(e)[:160]))
+                        return work
+                elif workload == "W5":
+                    # every thread builds its own revisions of ONE experiment name (labels unique per construction);
+                    # the index a unit maps to is the same for every revision, so the expected label is known
+                    base_idx = shared.setdefault("w5_idx", [SUFFIX.index(o[1][-1]) for o in ref[W5_REF]["panel"]])
+
+                    def make(ti):
+                        r = random.Random(seed + ti)
+
+                        def work():
+                            start.wait()
+                            for k in range(ops):
+                                tag = f"t{ti}k{k}"
+                                text = w5_text(tag)
+                                try:
+                                    ev = im.Evaluator(text)
+                                    got = [im.call(ev, e) for e in PANEL]
+                                    want = [("ok", tag + SUFFIX[i]) for i in base_idx]
+                                    logs[ti].append((k, "same-name-revision", text, got == want, None if got == want else got[:3]))
                                 except Exception as e:  # noqa: BLE001
                                     errors[ti].append((k, text, type(e).__name__, str(e)[:160]))
                         return work
@@ -339,7 +370,7 @@ def run(ctx):
     ctx.layer("line-event-yield-injection", "observed" if inter.events else "unreachable", events=inter.events, switches=inter.switches)
     if total_overlap == 0 and not ctx.nviolations:
         ctx.set_inconclusive("no two threads were ever inside parse_source at the same time")
-    ctx.sample(dict(workloads=["W1 construct", "W2 shared calls", "W3 A/B recompile race", "W4 failing recompile race"],
+    ctx.sample(dict(workloads=["W1 construct", "W5 same-name revisions", "W2 shared calls", "W3 A/B recompile race", "W4 failing recompile race"],
                     sources=len(SOURCES), example_source=SOURCES[1]))
 
 
